@@ -16,6 +16,7 @@ import (
 	"fmt"
 	"go/ast"
 	"go/build"
+	"go/constant"
 	"go/parser"
 	"go/printer"
 	"go/token"
@@ -191,7 +192,10 @@ func Normalize(dir, goarch string, tags []string) (map[string][]byte, []string) 
 			fmt.Fprintf(os.Stderr, "normalise: round %d\n", round)
 		}
 		n.classify()
-		changed := n.inlineRound()
+		changed := n.condHoistRound()
+		if !changed {
+			changed = n.inlineRound()
+		}
 		if !changed {
 			changed = n.methodValueRound()
 		}
@@ -212,6 +216,9 @@ func Normalize(dir, goarch string, tags []string) (map[string][]byte, []string) 
 		}
 		if !changed {
 			changed = n.sroaRound()
+		}
+		if !changed {
+			changed = n.sinkRound()
 		}
 		if !changed {
 			break
@@ -2054,6 +2061,18 @@ func (n *normalizer) threadable(as *ast.AssignStmt, iff *ast.IfStmt) *threadSpec
 			return nil
 		}
 		th.whole = &ast.IfStmt{Cond: iff.Cond, Body: iff.Body, Else: iff.Else}
+		// `if t` / `if !t` on a boolean target: the test can be specialised by what each return yields
+		th.boolIdx = -1
+		cond := ast.Unparen(iff.Cond)
+		neg := false
+		if ue, isNot := cond.(*ast.UnaryExpr); isNot && ue.Op == token.NOT {
+			cond, neg = ast.Unparen(ue.X), true
+		}
+		if id, isId := cond.(*ast.Ident); isId {
+			if i, isT := lhsObj[n.info.Uses[id]]; isT {
+				th.boolIdx, th.boolNeg = i, neg
+			}
+		}
 	}
 	ok := true
 	var walk func(node ast.Node, depth int)
@@ -2186,6 +2205,9 @@ type threadSpec struct {
 	cond   string         // name tested against nil
 	body   *ast.BlockStmt // BODY
 	whole  *ast.IfStmt    // general form: the complete if statement (without its init) to continue with
+	// general form with the condition `t` / `!t` for a boolean target t: index of t, and whether it is negated
+	boolIdx int
+	boolNeg bool
 }
 
 // bodyText prints the callee's body with its return statements rewritten.
@@ -2199,6 +2221,7 @@ func (n *normalizer) bodyText(fd *ast.FuncDecl, mode string, temps []string, res
 	m := map[ast.Node]ast.Node{}
 	body := cloneAST(fd.Body, m).(*ast.BlockStmt)
 	nilRet := map[*ast.ReturnStmt]bool{} // clone returns whose tested result is the literal nil
+	boolRet := map[*ast.ReturnStmt]int{} // clone returns whose tested boolean result is a constant: 1 true, -1 false
 	for on, cn := range m {
 		switch x := on.(type) {
 		case *ast.Ident:
@@ -2213,6 +2236,15 @@ func (n *normalizer) bodyText(fd *ast.FuncDecl, mode string, temps []string, res
 			if th != nil && th.errIdx >= 0 && len(x.Results) == len(th.lhs) && th.errIdx < len(x.Results) {
 				if tv, ok := n.info.Types[x.Results[th.errIdx]]; ok && tv.IsNil() {
 					nilRet[cn.(*ast.ReturnStmt)] = true
+				}
+			}
+			if th != nil && th.whole != nil && th.boolIdx >= 0 && len(x.Results) == len(th.lhs) {
+				if tv, ok := n.info.Types[x.Results[th.boolIdx]]; ok && tv.Value != nil && tv.Value.Kind() == constant.Bool {
+					if constant.BoolVal(tv.Value) {
+						boolRet[cn.(*ast.ReturnStmt)] = 1
+					} else {
+						boolRet[cn.(*ast.ReturnStmt)] = -1
+					}
 				}
 			}
 		}
@@ -2311,6 +2343,17 @@ func (n *normalizer) bodyText(fd *ast.FuncDecl, mode string, temps []string, res
 			if th != nil {
 				targets = th.lhs
 			}
+			if th != nil && th.whole != nil && th.boolIdx == 0 && len(targets) == 1 && len(ret.Results) == 1 && boolRet[ret] == 0 && len(active) == 0 {
+				if st := splitCompare(th, ret); st != nil {
+					repl = append(repl, st)
+					if !(single && top && i == len(*list)-1) {
+						repl = append(repl, &ast.BranchStmt{Tok: token.BREAK, Label: ast.NewIdent(label)})
+						usedLabel = true
+					}
+					(*list)[i] = &ast.BlockStmt{List: repl}
+					continue
+				}
+			}
 			if len(targets) > 0 {
 				rhs := ret.Results
 				if len(rhs) == 0 {
@@ -2320,7 +2363,7 @@ func (n *normalizer) bodyText(fd *ast.FuncDecl, mode string, temps []string, res
 			}
 			repl = append(repl, runDefers()...)
 			if th != nil && th.whole != nil {
-				repl = append(repl, th.whole)
+				repl = append(repl, specialiseIf(th, ret, boolRet[ret])...)
 			} else if th != nil && !nilRet[ret] {
 				repl = append(repl, &ast.IfStmt{
 					Cond: &ast.BinaryExpr{X: ast.NewIdent(th.cond), Op: token.NEQ, Y: ast.NewIdent("nil")},
@@ -3078,4 +3121,131 @@ func packetReadLike(fn *types.Func) bool {
 		return false
 	}
 	return r.At(3).Type().String() == "error"
+}
+
+// specialiseIf: the continuation `if t {A} else {B}` / `if !t {A} else {B}` at a return whose value for t is known to be
+// a constant (only the branch taken remains) or a comparison (tested directly, negated if need be).
+func specialiseIf(th *threadSpec, ret *ast.ReturnStmt, known int) []ast.Stmt {
+	whole := th.whole
+	if th.boolIdx < 0 || th.boolIdx >= len(ret.Results) {
+		return []ast.Stmt{whole}
+	}
+	if known != 0 {
+		taken := (known == 1) != th.boolNeg
+		if taken {
+			return []ast.Stmt{whole.Body}
+		}
+		if whole.Else != nil {
+			return []ast.Stmt{whole.Else}
+		}
+		return nil
+	}
+	e := ast.Unparen(ret.Results[th.boolIdx])
+	neg := th.boolNeg
+	for {
+		ue, ok := e.(*ast.UnaryExpr)
+		if !ok || ue.Op != token.NOT {
+			break
+		}
+		e, neg = ast.Unparen(ue.X), !neg
+	}
+	be, ok := e.(*ast.BinaryExpr)
+	if !ok {
+		return []ast.Stmt{whole}
+	}
+	op := be.Op
+	if neg {
+		switch be.Op {
+		case token.EQL:
+			op = token.NEQ
+		case token.NEQ:
+			op = token.EQL
+		case token.LSS:
+			op = token.GEQ
+		case token.GEQ:
+			op = token.LSS
+		case token.GTR:
+			op = token.LEQ
+		case token.LEQ:
+			op = token.GTR
+		default:
+			return []ast.Stmt{whole}
+		}
+	} else {
+		switch be.Op {
+		case token.EQL, token.NEQ, token.LSS, token.GEQ, token.GTR, token.LEQ:
+		default:
+			return []ast.Stmt{whole}
+		}
+	}
+	// the operands were evaluated by the assignment just before; evaluating them again is the same only if they are pure
+	if !syntacticallyPure(be.X) || !syntacticallyPure(be.Y) {
+		return []ast.Stmt{whole}
+	}
+	return []ast.Stmt{&ast.IfStmt{Cond: &ast.BinaryExpr{X: be.X, Op: op, Y: be.Y}, Body: whole.Body, Else: whole.Else}}
+}
+
+func syntacticallyPure(e ast.Expr) bool {
+	switch x := e.(type) {
+	case *ast.Ident, *ast.BasicLit:
+		return true
+	case *ast.ParenExpr:
+		return syntacticallyPure(x.X)
+	case *ast.SelectorExpr:
+		return syntacticallyPure(x.X)
+	case *ast.StarExpr:
+		return syntacticallyPure(x.X)
+	}
+	return false
+}
+
+// splitCompare: `return a OP b` continued by `if t {A} else {B}` / `if !t {A} else {B}` (t the only target):
+// `if a OP' b { t = …; A } else { t = …; B }` — the comparison is evaluated once, as before, and decides the branch itself.
+func splitCompare(th *threadSpec, ret *ast.ReturnStmt) ast.Stmt {
+	e := ast.Unparen(ret.Results[0])
+	neg := th.boolNeg
+	val := true // value of t when the emitted comparison holds
+	for {
+		ue, ok := e.(*ast.UnaryExpr)
+		if !ok || ue.Op != token.NOT {
+			break
+		}
+		e, neg, val = ast.Unparen(ue.X), !neg, !val
+	}
+	be, ok := e.(*ast.BinaryExpr)
+	if !ok {
+		return nil
+	}
+	switch be.Op {
+	case token.EQL, token.NEQ, token.LSS, token.GEQ, token.GTR, token.LEQ:
+	default:
+		return nil
+	}
+	tname := th.lhs[0]
+	assign := func(v bool) ast.Stmt {
+		name := "false"
+		if v {
+			name = "true"
+		}
+		return &ast.AssignStmt{Lhs: []ast.Expr{ast.NewIdent(tname)}, Tok: token.ASSIGN, Rhs: []ast.Expr{ast.NewIdent(name)}}
+	}
+	if tname == "_" {
+		assign = func(bool) ast.Stmt { return &ast.EmptyStmt{Implicit: true} }
+	}
+	whole := th.whole
+	block := func(first ast.Stmt, rest ast.Stmt) *ast.BlockStmt {
+		b := &ast.BlockStmt{List: []ast.Stmt{first}}
+		if rest != nil {
+			b.List = append(b.List, rest)
+		}
+		return b
+	}
+	// the comparison holds: t == val; the original test `t` (neg: `!t`) is then val != neg
+	var thenB, elseB *ast.BlockStmt
+	if val != neg {
+		thenB, elseB = block(assign(val), whole.Body), block(assign(!val), whole.Else)
+	} else {
+		thenB, elseB = block(assign(val), whole.Else), block(assign(!val), whole.Body)
+	}
+	return &ast.IfStmt{Cond: &ast.BinaryExpr{X: be.X, Op: be.Op, Y: be.Y}, Body: thenB, Else: elseB}
 }
